@@ -86,6 +86,8 @@ def run(prop, tier, seed, replay=None):
         else:
             rep.violation("%s case=%s" % (v["dev"], json.dumps(rec, ensure_ascii=False)[:400]),
                           {"property": prop, "verdict": v, "case": rec})
+    from . import readoverlap, reportrace
+    readoverlap.check(rep, list(reportrace.AB_PAIRS))
     if not data_ok:
         rep.violation("address-data of a returned card differs from GET", {"property": prop})
     pairs = len(A) * len(tables["values"])
